@@ -62,6 +62,27 @@ def scratch_root():
     return path
 
 
+def run_environment(seed, pid, i):
+    """Per-run properties of the simulated machine that no single check owns.  The locale encoding: what a text file
+    opened WITHOUT an explicit encoding is decoded / encoded with (UTF-8 on most Unix machines, a legacy code page on
+    many Windows ones)."""
+    rng = util.rng_for(seed, pid, i, salt='environment')
+    env = {'locale_encoding': rng.choice(['utf-8', 'utf-8', 'utf-8', 'cp1252', 'latin-1', 'ascii'])}
+    if rng.random() < 0.125:
+        # the interpreter runs with -O / PYTHONOPTIMIZE=1: assert statements are no-ops
+        env['pyopt'] = 1
+    return env
+
+
+def replay_with_env(mod, schedule, scratch):
+    from . import proc
+    proc.RUN_DEFAULTS = dict(schedule.get('env_defaults') or {})
+    res = mod.replay(schedule, scratch)
+    for v in res.get('violations') or []:
+        v['schedule'].setdefault('env_defaults', dict(proc.RUN_DEFAULTS))
+    return res
+
+
 def shrink(mod, v, scratch):
     """Greedy schedule-level delta debugging while the same (invariant, signature) persists."""
     if not hasattr(mod, 'shrink_candidates'):
@@ -77,7 +98,7 @@ def shrink(mod, v, scratch):
                 break
             spent += 1
             try:
-                res = mod.replay(cand, os.path.join(scratch, 'shrink'))
+                res = replay_with_env(mod, dict(cand, env_defaults=best['schedule'].get('env_defaults') or {}), os.path.join(scratch, 'shrink'))
             except HarnessError:
                 continue
             hit = [x for x in res['violations'] if sig_key(x) == want]
@@ -92,7 +113,7 @@ def write_replay(mod, v):
     os.makedirs(REPLAY_DIR, exist_ok=True)
     doc = {'property': mod.ID, 'invariant': v['invariant'], 'signature': v['signature'],
            'witness': v['witness'], 'digest': v['digest'], 'schedule': v['schedule'],
-           'repo': REPO}
+           'repo': REPO, 'hashseed': os.environ.get('PYTHONHASHSEED', '0')}
     name = '%s-%s.json' % (mod.ID, util.digest(doc)[:12])
     path = os.path.join(REPLAY_DIR, name)
     with open(path, 'w', encoding='utf-8') as f:
@@ -113,9 +134,18 @@ def confirm_fresh(mod, path):
 def do_replay(mod, path):
     with open(path, 'r', encoding='utf-8') as f:
         doc = json.load(f)
+    hs = str(doc.get('hashseed', '0'))
+    if hs != os.environ.get('PYTHONHASHSEED', '0'):
+        # found under another string-hash seed (set iteration order is part of the schedule): replay under that one
+        env = dict(os.environ, TALLYSIM_HASHSEED=hs)
+        env.pop('TALLYSIM_BOOTED', None)
+        p = subprocess.run([sys.executable, '-B', os.path.join(VERIF, 'check'), mod.ID, '--replay', path],
+                           stdout=subprocess.PIPE, stderr=subprocess.STDOUT, env=env, timeout=900)
+        sys.stdout.write(p.stdout.decode('utf-8', 'replace'))
+        return p.returncode
     scratch = scratch_root()
     try:
-        res = mod.replay(doc['schedule'], os.path.join(scratch, 'replay'))
+        res = replay_with_env(mod, doc['schedule'], os.path.join(scratch, 'replay'))
     finally:
         shutil.rmtree(scratch, ignore_errors=True)
     want = util.canon({'invariant': doc['invariant'], 'signature': doc['signature']})
@@ -157,12 +187,24 @@ def run_check(mod, tier, seed, fresh_confirm=True):
     n = mod.runs(tier)
     if os.environ.get('VERIF_RUNS'):
         n = int(os.environ['VERIF_RUNS'])
+    offset = int(os.environ.get('VERIF_RUN_OFFSET', '0'))
+    subpass = os.environ.get('VERIF_SUBPASS') == '1'
     print('tallysim check=%s tier=%s VERIF_SEED=%d runs=%d workers=%d repo=%s hashseed=%s' % (
         mod.ID, tier, seed, n, pool.n_workers(), REPO, os.environ.get('PYTHONHASHSEED')))
     sys.stdout.flush()
     try:
-        results = pool.run_sharded(lambda i: mod.run_one(seed, i, tier, os.path.join(scratch, 'w%d' % i)),
-                                   range(n), scratch)
+        def one(i):
+            from . import proc
+            proc.RUN_DEFAULTS = run_environment(seed, mod.ID, i)
+            res = mod.run_one(seed, i, tier, os.path.join(scratch, 'w%d' % i))
+            for v in res.get('violations') or []:
+                v['schedule']['env_defaults'] = dict(proc.RUN_DEFAULTS)
+            res.setdefault('count', {})['locale.' + proc.RUN_DEFAULTS.get('locale_encoding', 'utf-8')] = 1
+            if proc.RUN_DEFAULTS.get('pyopt'):
+                res['count']['interpreter.optimized'] = 1
+            return res
+        results = pool.run_sharded(one, range(offset, offset + n), scratch)
+        results = {i - offset: r for i, r in results.items()}
         count, sets, samples = merge_stats(results)
         run_digests = [results[i]['digest'] for i in range(n)]
         all_digest = util.digest(run_digests)
@@ -194,7 +236,7 @@ def run_check(mod, tier, seed, fresh_confirm=True):
         for v in new[:MAX_REPORTED]:
             small, spent = shrink(mod, v, scratch)
             # canonical digest: the reduced schedule executed on its own, in this process
-            again = mod.replay(small['schedule'], os.path.join(scratch, 'confirm'))
+            again = replay_with_env(mod, small['schedule'], os.path.join(scratch, 'confirm'))
             hit = [x for x in again['violations'] if sig_key(x) == sig_key(small)]
             if not hit:
                 print('HARNESS-ERROR violation %s did not reproduce when its schedule was re-executed' % sig_key(small))
@@ -220,8 +262,46 @@ def run_check(mod, tier, seed, fresh_confirm=True):
             print('  ... and %d more distinct violation signatures not minimised' % (len(new) - MAX_REPORTED))
         for what in sorted(known_hit):
             print('KNOWN-FINDING: property=%s %s' % (mod.ID, what))
+        second = None
+        if not subpass and not os.environ.get('VERIF_RUNS') and os.environ.get('VERIF_NO_SECOND_PASS') != '1':
+            # the string-hash seed (iteration order of every set and of dict-of-set structures) is a source of nondeterminism a real
+            # interpreter draws afresh at every start; this interpreter and every process forked from it run under one value, so a
+            # quarter as many further runs are made by a second harness under another value (it minimises, writes and confirms its own
+            # replay files, which record the value)
+            other = '1' if os.environ.get('PYTHONHASHSEED', '0') != '1' else '2'
+            evtmp = os.path.join(scratch, 'second-evidence')
+            env = dict(os.environ, TALLYSIM_HASHSEED=other, VERIF_SUBPASS='1', VERIF_RUN_OFFSET=str(offset + n), VERIF_RUNS=str(max(8, n // 4)),
+                       VERIF_EVIDENCE_DIR=evtmp, VERIF_SEED=str(seed), VERIF_REPO=REPO)
+            env.pop('TALLYSIM_BOOTED', None)
+            p2 = subprocess.run([sys.executable, '-B', os.path.join(VERIF, 'check'), mod.ID, '--tier', tier],
+                                stdout=subprocess.PIPE, stderr=subprocess.STDOUT, env=env, timeout=6000)
+            out2 = p2.stdout.decode('utf-8', 'replace')
+            for line in out2.split('\n'):
+                if line.startswith('tallysim check=') or not line.strip():
+                    continue
+                if line.startswith(mod.ID + ' ' + tier + ':'):
+                    line = '  second pass (PYTHONHASHSEED=%s): %s' % (other, line)
+                print(line)
+            if p2.returncode not in (0, 1):
+                print('HARNESS-ERROR the second pass (PYTHONHASHSEED=%s) exited %s' % (other, p2.returncode))
+                exit_code = 2
+            elif p2.returncode == 1 and exit_code == 0:
+                exit_code = 1
+            try:
+                with open(os.path.join(evtmp, mod.ID + '.json'), 'r', encoding='utf-8') as f:
+                    ev2 = json.load(f)
+                c2 = ev2['coverage']
+                second = {'PYTHONHASHSEED': other, 'runs': c2.get('runs'), 'run_indices': [offset + n, offset + n + (c2.get('runs') or 0) - 1],
+                          'evaluations': c2.get('evaluations'), 'distinct_nontrivial': c2.get('distinct_nontrivial'),
+                          'faults_fired': c2.get('faults_fired'), 'violations': ev2.get('violations'), 'batch_digest': c2.get('batch_digest')}
+            except (OSError, ValueError, KeyError):
+                if exit_code == 0:
+                    print('HARNESS-ERROR the second pass wrote no evidence:\n' + out2[-1500:])
+                    exit_code = 2
         wall = time.time() - t0
         cov = mod.coverage(count, sets, samples, tier)
+        if second is not None:
+            cov['second_pass_other_hash_seed'] = second
         cov.setdefault('runs', n)
         cov.setdefault('seeds', [seed])
         cov['runs_per_hour'] = int(n / wall * 3600) if wall > 0 else 0
@@ -229,10 +309,16 @@ def run_check(mod, tier, seed, fresh_confirm=True):
         cov['known_findings_hit'] = sorted(known_hit)
         cov['distinct_violation_signatures'] = len(distinct)
         cov['components'] = mod.COMPONENTS
+        cov['machine_environment'] = {
+            'what': 'per run, drawn from the seed and stored in replay files: the locale encoding (used by every text open() that names '
+                    'no encoding) and whether the interpreter runs with -O (tally re-imported in the simulated process with asserts compiled away)',
+            'runs_by_locale_encoding': {k[7:]: v for k, v in count.items() if k.startswith('locale.')},
+            'runs_with_optimized_interpreter': count.get('interpreter.optimized', 0)}
         cov['simulated_time'] = ('tally has no timers: simulated time is not meaningful; reported instead: '
                                  'simulated process executions, file-system effects, pinned calendar dates')
         ev = {'property_id': mod.ID, 'tier': tier, 'seed': seed, 'level': mod.LEVEL, 'coverage': cov,
-              'assumptions': mod.ASSUMPTIONS, 'wall_s': round(wall, 2), 'violations': len(new)}
+              'assumptions': mod.ASSUMPTIONS, 'wall_s': round(wall, 2),
+              'violations': len(new) + ((second or {}).get('violations') or 0)}
         evdir = os.environ.get('VERIF_EVIDENCE_DIR') or os.path.join(VERIF, 'evidence')
         os.makedirs(evdir, exist_ok=True)
         with open(os.path.join(evdir, mod.ID + '.json'), 'w', encoding='utf-8') as f:
